@@ -305,6 +305,8 @@ def nt_registry():
         ft = kw['first_times']
         lt = kw['last_times'].copy()
         g.setdefault('ordered_calls', []).append(kw)
+        # the callee's own contract (ord/*) REQUIRES at least one last time (it takes their maximum): the caller has to establish that
+        ip.prove('nt/callee-requires-a-last-time', lt.length >= 1, {'an empty selection for the last operator must not reach the contraction': True})
         # "a time step passed by the caller governs both the returned time axes and the dynamics"
         ip.prove('nt/dt-governs-dynamics', veq(kw['dt'], g['dt_axes']) if 'dt' in kw else z3.BoolVal(False),
                  {'dt_forwarded': 'dt' in kw})
@@ -785,6 +787,7 @@ def ntn_registry(nops):
         ft = list(kw['first_times'])
         lt = kw['last_times'].copy()
         g.setdefault('ordered_calls', []).append(kw)
+        ip.prove('nt/callee-requires-a-last-time', lt.length >= 1)
         ip.prove('nt/dt-governs-dynamics', veq(kw['dt'], g['dt_axes']) if 'dt' in kw else z3.BoolVal(False))
         ip.prove('nt/start-time-governs-dynamics', veq(kw['start_time'], g['t0']) if 'start_time' in kw else z3.BoolVal(False))
         f = CorrN[nops]
